@@ -1,7 +1,11 @@
 (* C12: case vocabulary, executable model runner and property predicate.
-   Slice 1: AES-CFB sealing (pkg/crypto EncryptAES/DecryptAES).
-   The block cipher is an oracle table filled by the harness with real AES. *)
+   Slice 1: AES-CFB sealing (pkg/crypto EncryptAES/DecryptAES); the block cipher
+   is an oracle table filled by the harness with real AES.
+   Slice 2: claims codec (pkg/oidc): round trips of generated values of the
+   eight claim/response types, arbitrary documents fed to the decoders, the
+   stand-alone tolerant decoders, and the schema read off the Go struct tags. *)
 From OIDC Require Import Lib Base64 Cipher.
+From OIDC Require Export C12_Json C12_Codec.
 
 Definition table := list (list nat * list nat).
 
@@ -11,15 +15,47 @@ Fixpoint lookup_block (t : table) (b : list nat) : list nat :=
   | (k, v) :: r => if list_eqb Nat.eqb k b then v else lookup_block r b
   end.
 
+(* oracle tables: FromTime(time.Parse(RFC3339,s)); language.Tag.UnmarshalText;
+   language.Parse.  A string that is not listed counts as rejected. *)
+Record oracles := O { o_rfc : list (string * option Z);
+                      o_lt : list (string * lres);
+                      o_lp : list (string * lres) }.
+
+Fixpoint tlookup {A} (d : A) (t : list (string * A)) (s : string) : A :=
+  match t with
+  | [] => d
+  | (k, v) :: r => if String.eqb k s then v else tlookup d r s
+  end.
+
+Definition rfc_of (o : oracles) := tlookup None (o_rfc o).
+Definition lt_of (o : oracles) := tlookup LSyn (o_lt o).
+Definition lp_of (o : oracles) := tlookup LSyn (o_lp o).
+Definition decode_o (o : oracles) := decode (rfc_of o) (lt_of o).
+Definition dec_field_o (o : oracles) := dec_field (rfc_of o) (lt_of o) (lp_of o).
+
+Definition res_opt {A} (r : res A) : option A := match r with Ok a => Some a | _ => None end.
+
 Inductive input :=
 | ISeal (key iv plain key2 : list nat) (t t2 : table)
     (* Encrypt plain under key with IV iv; decrypt result under key and under key2 *)
-| IOpen (key : list nat) (s : string) (t : table).
+| IOpen (key : list nat) (s : string) (t : table)
     (* Decrypt an arbitrary string *)
+| IRound (ty : tyname) (vals : list fval) (claims : obj) (o : oracles)
+    (* json.Marshal the value, json.Unmarshal the bytes into a fresh value *)
+| IDec (ty : tyname) (doc : json) (o : oracles)
+    (* json.Unmarshal an arbitrary document; when that succeeds, json.Marshal the result *)
+| IDecK (k : kind) (doc : json) (o : oracles)
+    (* json.Unmarshal into a stand-alone Audience / Time / Bool / SpaceDelimitedArray / Locales *)
+| ISchema (ty : tyname).
+    (* (name, kind, omitempty) of the JSON-visible fields, by reflection *)
 
 Inductive observed :=
 | OSeal (ct : option string) (dec_same dec_other : option (list nat))
 | OOpen (r : option (list nat))
+| ORound (doc : option json) (back : option (list fval * obj))
+| ODec (r : option (list fval * obj)) (reenc : option json)
+| ODecK (r : option fval)
+| OSchema (s : list field)
 | OPanic.
 
 Definition model (i : input) : observed :=
@@ -32,15 +68,243 @@ Definition model (i : input) : observed :=
       else OSeal None None None
   | IOpen key s t =>
       if key_len_ok key then OOpen (open (lookup_block t) s) else OOpen None
+  | IRound ty vals claims o =>
+      let d := JObj (encode_T ty vals claims) in
+      ORound (Some d) (res_opt (decode_o o (schema_of ty) d))
+  | IDec ty doc o =>
+      match decode_o o (schema_of ty) doc with
+      | Ok (vs, cl) => ODec (Some (vs, cl)) (Some (JObj (encode_T ty vs cl)))
+      | _ => ODec None None
+      end
+  | IDecK k doc o => ODecK (res_opt (dec_field_o o k doc))
+  | ISchema ty => OSchema (schema_of ty)
   end.
 
 Definition bytes_eqb := list_eqb Nat.eqb.
 
-(* The property, on what the implementation answered:
-   Decrypt(Encrypt p k) k = p; Encrypt succeeds for every valid key size; under a
-   different key the plaintext does not come back (checked for |p| >= 8 only:
-   shorter plaintexts collide with probability >= 2^-56 for honest AES);
-   decoding garbage never panics. *)
+(* ---------- equality on the codec vocabulary ---------- *)
+Definition strs_eqb := list_eqb String.eqb.
+
+Fixpoint actor_eqb (a b : actor) : bool :=
+  match a, b with
+  | Actor x i s c, Actor x' i' s' c' =>
+      String.eqb i i' && String.eqb s s' && obj_eqb c c' &&
+      match x, x' with
+      | None, None => true
+      | Some p, Some q => actor_eqb p q
+      | _, _ => false
+      end
+  end.
+
+Definition addr_eqb (a b : addr) : bool :=
+  String.eqb (a_formatted a) (a_formatted b) && String.eqb (a_street a) (a_street b) &&
+  String.eqb (a_locality a) (a_locality b) && String.eqb (a_region a) (a_region b) &&
+  String.eqb (a_postal a) (a_postal b) && String.eqb (a_country a) (a_country b).
+
+Definition fval_eqb (a b : fval) : bool :=
+  match a, b with
+  | VStr x, VStr y => String.eqb x y
+  | VTime x, VTime y => Z.eqb x y
+  | VStrs x, VStrs y => option_eqb strs_eqb x y
+  | VBool x, VBool y => Bool.eqb x y
+  | VLocale x, VLocale y => option_eqb String.eqb x y
+  | VActor x, VActor y => option_eqb actor_eqb x y
+  | VAddr x, VAddr y => option_eqb addr_eqb x y
+  | VMap x, VMap y => obj_eqb x y
+  | _, _ => false
+  end.
+
+Definition kind_eqb (a b : kind) : bool :=
+  match a, b with
+  | KStr, KStr | KTime, KTime | KAud, KAud | KStrs, KStrs | KSDA, KSDA | KBool, KBool
+  | KBoolS, KBoolS | KLocale, KLocale | KLocales, KLocales | KActor, KActor
+  | KAddr, KAddr | KMap, KMap => true
+  | _, _ => false
+  end.
+
+Definition field_eqb (a b : field) : bool :=
+  String.eqb (fname a) (fname b) && kind_eqb (fkind a) (fkind b) && Bool.eqb (fomit a) (fomit b).
+
+Definition dec_eqb (a b : list fval * obj) : bool :=
+  list_eqb fval_eqb (fst a) (fst b) && obj_eqb (snd a) (snd b).
+
+(* ---------- the property, written from its text ---------- *)
+
+(* JSON text of a set simple claim (string / time / bool), stated independently
+   of the model: "custom data can never replace iss, sub, exp ..." *)
+Definition simple_json (v : fval) : option json :=
+  match v with
+  | VStr s => Some (JStr s)
+  | VTime z => Some (JNum z "")
+  | VBool b => Some (JBool b)
+  | _ => None
+  end.
+
+Definition actor_names : list string := ["act"; "iss"; "sub"].
+
+(* a' is what a became after a round trip: set members unchanged, custom
+   entries that do not carry a registered name unchanged, recursively *)
+Fixpoint actor_sim (a a' : actor) : bool :=
+  match a, a' with
+  | Actor x i s c, Actor x' i' s' c' =>
+      (String.eqb i "" || String.eqb i i') && (String.eqb s "" || String.eqb s s') &&
+      forallb (fun kv => string_in (fst kv) actor_names ||
+                         option_eqb json_eqb (lookup (fst kv) c') (Some (snd kv))) c &&
+      match x with
+      | None => true
+      | Some p => match x' with Some q => actor_sim p q | None => false end
+      end
+  end.
+
+Definition val_rt (v v' : fval) : bool :=
+  match v, v' with
+  | VActor (Some a), VActor (Some a') => actor_sim a a'
+  | VLocale (Some c), VLocale None => String.eqb c "und"
+  | _, _ => fval_eqb v v'
+  end.
+
+(* an unset registered member whose name also occurs in the custom map: the
+   custom value is then read back into the member (and may not fit its type) *)
+Fixpoint unset_collision (sch : list field) (vals : list fval) (claims : obj) : bool :=
+  match sch, vals with
+  | f :: s, v :: r =>
+      (fomit f && is_empty v && match lookup (fname f) claims with Some _ => true | None => false end)
+      || unset_collision s r claims
+  | _, _ => false
+  end.
+
+Fixpoint actor_collision (a : actor) : bool :=
+  match a with
+  | Actor x i s c =>
+      (String.eqb i "" && match lookup "iss" c with Some _ => true | None => false end) ||
+      (String.eqb s "" && match lookup "sub" c with Some _ => true | None => false end) ||
+      match x with
+      | Some p => actor_collision p
+      | None => match lookup "act" c with Some _ => true | None => false end
+      end
+  end.
+
+Definition any_actor_collision (vals : list fval) : bool :=
+  existsb (fun v => match v with VActor (Some a) => actor_collision a | _ => false end) vals.
+
+(* values for which a lossless round trip is claimed: scope elements without
+   spaces, locale tags that the language package prints as it read them *)
+Definition rt_guard (o : oracles) (sch : list field) (vals : list fval) : bool :=
+  vals_ok sch vals &&
+  forallb (fun v => match v with
+                    | VLocale (Some c) =>
+                        String.eqb c "und" ||
+                        match lt_of o c with LOk c' => String.eqb c c' | _ => false end
+                    | _ => true
+                    end) vals.
+
+Fixpoint fields_rt (ty : tyname) (sch : list field) (vals vals' : list fval) (d : obj) : bool :=
+  match sch, vals, vals' with
+  | [], [], [] => true
+  | f :: s, v :: r, v' :: r' =>
+      (if fomit f && is_empty v then true
+       else val_rt v v' &&
+            match simple_json v with
+            | Some j => option_eqb json_eqb (lookup (fname f) d) (Some j)
+            | None => true
+            end)
+      && fields_rt ty s r r' d
+  | _, _, _ => false
+  end.
+
+Definition spec_round (ty : tyname) (vals : list fval) (claims : obj) (o : oracles)
+                      (doc : option json) (back : option (list fval * obj)) : bool :=
+  let sch := schema_of ty in
+  match doc with
+  | Some (JObj d) =>
+      if rt_guard o sch vals then
+        match back with
+        | Some (vals', cl') =>
+            (* the decoded custom map is the whole document *)
+            obj_eqb cl' d &&
+            (* set registered members survive and are what the document says *)
+            fields_rt ty sch vals vals' d &&
+            (* custom claims without a registered name survive *)
+            forallb (fun kv => string_in (fst kv) (map fname sch) ||
+                               option_eqb json_eqb (lookup (fst kv) d) (Some (snd kv))) claims
+        | None => unset_collision sch vals claims || any_actor_collision vals
+        end
+      else true
+  | _ => false
+  end.
+
+(* "answers any other form with an error or the zero value - never with a
+   value the document did not contain": v must be empty or one of the documented
+   readings of the JSON value found under the member's name *)
+Definition str_from (s : string) (oj : option json) : bool :=
+  String.eqb s "" || match oj with Some (JStr s') => String.eqb s s' | _ => false end.
+
+Definition in_arr (s : string) (a : list json) : bool :=
+  existsb (fun j => match j with JStr s' => String.eqb s s' | _ => false end) a.
+
+Fixpoint actor_from (a : actor) (j : json) : bool :=
+  match a, j with
+  | Actor x i s c, JObj o =>
+      obj_eqb c o && str_from i (lookup "iss" o) && str_from s (lookup "sub" o) &&
+      match x with
+      | None => true
+      | Some p => match lookup "act" o with Some j' => actor_from p j' | None => false end
+      end
+  | _, _ => false
+  end.
+
+Definition from_doc (o : oracles) (k : kind) (oj : option json) (v : fval) : bool :=
+  is_empty v ||
+  match oj with
+  | None => false
+  | Some j =>
+      match k, v, j with
+      | KStr, VStr s, JStr s' => String.eqb s s'
+      | KTime, VTime z, JNum z' _ => Z.eqb z z'
+      | KTime, VTime z, JStr s => option_eqb Z.eqb (rfc_of o s) (Some z)
+      | KAud, VStrs (Some l), JStr s => strs_eqb l [s]
+      | (KAud | KStrs), VStrs (Some l), JArr a =>
+          (List.length l =? List.length a) &&
+          forallb (fun s => String.eqb s "" || in_arr s a) l
+      | KSDA, VStrs (Some l), JStr s => strs_eqb l (split_sp s)
+      | KSDA, VStrs (Some l), JNull => forallb (fun s => String.eqb s "") l
+      | KLocales, VStrs (Some l), JStr s =>
+          forallb (fun c => existsb (fun p => match lp_of o p with LOk c' => String.eqb c c' | _ => false end)
+                                    (split_sp s)) l
+      | KLocales, VStrs (Some l), JArr a =>
+          forallb (fun c => existsb (fun e => match e with
+                                              | JStr p => match lp_of o p with LOk c' => String.eqb c c' | _ => false end
+                                              | _ => false
+                                              end) a) l
+      | KBool, VBool true, JBool true => true
+      | KBoolS, VBool true, JBool true => true
+      | KBoolS, VBool true, JStr s => String.eqb s "true"
+      | KLocale, VLocale (Some c), JStr s =>
+          String.eqb c "und" || match lt_of o s with LOk c' => String.eqb c c' | _ => false end
+      | KActor, VActor (Some a), JObj _ => actor_from a j
+      | KAddr, VAddr (Some a), JObj ob =>
+          str_from (a_formatted a) (lookup "formatted" ob) && str_from (a_street a) (lookup "street_address" ob) &&
+          str_from (a_locality a) (lookup "locality" ob) && str_from (a_region a) (lookup "region" ob) &&
+          str_from (a_postal a) (lookup "postal_code" ob) && str_from (a_country a) (lookup "country" ob)
+      | KMap, VMap m, JObj ob => obj_eqb m ob
+      | _, _, _ => false
+      end
+  end.
+
+Fixpoint fields_from (o : oracles) (sch : list field) (vals : list fval) (d : obj) : bool :=
+  match sch, vals with
+  | [], [] => true
+  | f :: s, v :: r => from_doc o (fkind f) (lookup (fname f) d) v && fields_from o s r d
+  | _, _ => false
+  end.
+
+(* The property, on what the implementation answered.
+   Sealing: Decrypt(Encrypt p k) k = p; Encrypt succeeds for every valid key size;
+   under a different key the plaintext does not come back (checked for |p| >= 8
+   only: shorter plaintexts collide with probability >= 2^-56 for honest AES);
+   decoding garbage never panics.
+   Codec: see spec_round / from_doc.  ISchema carries no property (it only ties
+   the model's schema to the struct tags). *)
 Definition spec (i : input) (o : observed) : bool :=
   match i, o with
   | ISeal key iv p key2 _ _, OSeal ct d1 d2 =>
@@ -53,6 +317,19 @@ Definition spec (i : input) (o : observed) : bool :=
         end
       else match ct with None => true | Some _ => false end
   | IOpen _ _ _, OOpen _ => true
+  | IRound ty vals claims orc, ORound doc back => spec_round ty vals claims orc doc back
+  | IDec ty doc orc, ODec r _ =>
+      match r with
+      | None => true
+      | Some (vs, cl) =>
+          match doc with
+          | JObj d => obj_eqb cl d && fields_from orc (schema_of ty) vs d
+          | _ => obj_eqb cl [] && fields_from orc (schema_of ty) vs []
+          end
+      end
+  | IDecK k doc orc, ODecK r =>
+      match r with None => true | Some v => from_doc orc k (Some doc) v end
+  | ISchema _, OSchema _ => true
   | _, _ => false
   end.
 
@@ -61,6 +338,10 @@ Definition obs_eqb (a b : observed) : bool :=
   | OSeal c1 d1 e1, OSeal c2 d2 e2 =>
       option_eqb String.eqb c1 c2 && option_eqb bytes_eqb d1 d2 && option_eqb bytes_eqb e1 e2
   | OOpen r1, OOpen r2 => option_eqb bytes_eqb r1 r2
+  | ORound d1 b1, ORound d2 b2 => option_eqb json_eqb d1 d2 && option_eqb dec_eqb b1 b2
+  | ODec r1 e1, ODec r2 e2 => option_eqb dec_eqb r1 r2 && option_eqb json_eqb e1 e2
+  | ODecK r1, ODecK r2 => option_eqb fval_eqb r1 r2
+  | OSchema s1, OSchema s2 => list_eqb field_eqb s1 s2
   | OPanic, OPanic => true
   | _, _ => false
   end.
@@ -72,6 +353,31 @@ Definition path (i : input) (o : observed) : nat :=
   | ISeal _ _ _ _ _ _, _ => 0
   | IOpen _ _ _, OOpen (Some r) => 5 + Nat.min 2 (List.length r / 16)
   | IOpen _ _ _, _ => 8
+  | IRound ty vals claims _, ORound _ back =>
+      match back with
+      | None => 10
+      | Some _ =>
+          match claims with
+          | [] => 11
+          | _ => if unset_collision (schema_of ty) vals claims then 13
+                 else if existsb (fun kv => string_in (fst kv) (map fname (schema_of ty))) claims then 12
+                 else 14
+          end
+      end
+  | IDec _ doc _, ODec r _ =>
+      match doc, r with
+      | JObj _, Some _ => 15
+      | JObj _, None => 16
+      | JNull, _ => 17
+      | _, _ => 0
+      end
+  | IDecK _ _ _, ODecK r =>
+      match r with
+      | None => 18
+      | Some v => if is_empty v then 19 else 20
+      end
+  | ISchema _, _ => 21
+  | _, _ => 0
   end.
 
 Definition case_mismatches := run_mismatches model obs_eqb.
